@@ -274,7 +274,8 @@ def gen_regex(r):
         greedy = r.random() < 0.6
         g = G(r, greedy)
         alts = g.top()
-        if not zero_width_loop(rc.ast_text(rc.norm(alts_ast(alts, greedy)))):
+        t = rc.ast_text(rc.norm(alts_ast(alts, greedy)))
+        if not zero_width_loop(t) and not plus_empty_body(t):      # (a{0})+ reads out of bounds: listed finding, kept in the corpus
             return alts, greedy
 
 
@@ -434,6 +435,24 @@ def zero_width_loop(ast_text):
         return False
 
 
+def plus_empty_body(ast_text):
+    """signature of C03-plus-empty-body: a `+` whose operand's code reference is null (it starts with something that emits no code)"""
+    def ref_null(n):
+        if n[0] == "zero" and n[1] == "e": return True
+        if n[0] == "range": return (n[2] == 0 and n[3] == 0) or (n[2] > 0 and ref_null(n[1]))
+        if n[0] == "cat": return ref_null(n[1])
+        return False
+
+    def go(n):
+        if n[0] == "plus" and ref_null(n[1]):
+            return True
+        return any(go(x) for x in n[1:] if isinstance(x, tuple))
+    try:
+        return go(parse_ast_text(ast_text))
+    except Exception:
+        return False
+
+
 def lazy_dot_chain(ast_text):
     """signature of C03-lazy-dot-chain: top-level concatenation with an inner lazy rangeAny whose bounds exceed 200"""
     items = []
@@ -471,6 +490,7 @@ CORPUS = [
     ("/ab{2,4}?c/", "", "a", b"abbbbc abc abbc"), ("/\\bfoo\\B/", "", "a", b"food foo"), ("/^ab/", "", "a", b"abab"), ("/ab$/", "", "a", b"abab"),
     ("/(\\B)*?b|./", "", "a", b"-\xe9a", "A(C(*l(B),l62),.)"), ("/(\\B)*b|./", "", "a", b"-\xe9a", "A(C(*g(B),l62),.)"),
     ("/^(a{,2}?){4,4}?/", "", "a", b"Aaaaaaa", "C(^,Rl4,4(Rl0,2(l61)))"),
+    ("/(a{0})+b/", "", "a", b"ab", "C(+g(Rg0,0(l61)),l62)"),
     ("/[^a-c]x/i", "", "ai", b"Ax dx Dx"), ("/a.c/s", "wide", "ws", b"a\0\n\0c\0a\0b\0c\0"), ("/(a*)*b/", "", "a", b"aaab"), ("/(a|)*b/", "", "a", b"aab"),
 ]
 
@@ -551,6 +571,9 @@ def run(tier, replay=None):
             toks = dict(t.split("=", 1) for t in c.split()[1:] if "=" in t)
             if "C03-continue-killed-fiber" in kf and "yr_re_exec: Assertion" in errx and killed_fiber_sig(toks.get("re", "")):
                 known_hits.setdefault("C03-continue-killed-fiber", []).append(cid)
+                continue
+            if "C03-plus-empty-body" in kf and plus_empty_body(toks.get("re", "")):
+                known_hits.setdefault("C03-plus-empty-body", []).append(cid)
                 continue
             if "C03-zero-width-loop-hang" in kf and rcx == "timeout" and zero_width_loop(toks.get("re", "")):
                 known_hits.setdefault("C03-zero-width-loop-hang", []).append(cid)
@@ -650,6 +673,10 @@ def run(tier, replay=None):
 
     def excuse(line, kind, err):
         toks = dict(t.split("=", 1) for t in line.split()[1:] if "=" in t)
+        if "C03-plus-empty-body" in kf and plus_empty_body(toks.get("re", "")):
+            return True
+        if kind == "emit":
+            return False
         if kind == "crash":
             return ("C03-continue-killed-fiber" in kf and "yr_re_exec: Assertion" in err and killed_fiber_sig(toks.get("re", ""))) or \
                    ("C03-zero-width-loop-hang" in kf and zero_width_loop(toks.get("re", "")))
